@@ -210,7 +210,7 @@ func stateOf(s *store.ImmuStore) replicaState {
 }
 
 // Gen: VERIF_C16_ONLY=<part> (development aid) restricts a run to one part:
-// store | appmd | probes | pgsql | stream | opentime | repl
+// store | appmd | probes | sql | pgsql | stream | opentime | repl
 func Gen(r *vk.Run, n int) error {
 	budget := n
 	only := os.Getenv("VERIF_C16_ONLY")
@@ -224,6 +224,10 @@ func Gen(r *vk.Run, n int) error {
 	}
 	if want("probes") {
 		genProbes(r, budget/30)
+	}
+	// --- SQL text: every prefix / delimiter edit of a grammar-covering statement pool (falsifier only)
+	if want("sql") {
+		genSQLProbes(r)
 	}
 	// --- PostgreSQL wire messages and framing (modelled: Wire/PgMsg.v)
 	if want("pgsql") {
